@@ -54,6 +54,7 @@ function validate(ctx, content)
     end
   end
   if ctx.attrs["x-ret"] == "str" then return payload end
+  if ctx.attrs["x-ret"] == "empty" then return "" end
   return nil
 end
 "#,
